@@ -131,6 +131,32 @@ def prepass(text, log):
     return text
 
 
+def erase_with_span(text, log):
+    """Span-erased slice (the view of C02, which says nothing about spans): every `.with_span(<expr>)` call of the emitted code is dropped.
+    `with_span` changes nothing but the span field (contract proved on the real body in l1_error_api), so what is left is the same
+    program as far as kinds, location paths, counts and order of errors go; the oracle of this view is built without spans as well."""
+    out, i, k = [], 0, 0
+    key = ".with_span("
+    while True:
+        j = text.find(key, i)
+        if j < 0:
+            out.append(text[i:])
+            break
+        out.append(text[i:j])
+        depth, p = 1, j + len(key)
+        while depth:
+            c = text[p]
+            depth += 1 if c == "(" else -1 if c == ")" else 0
+            p += 1
+        i = p
+        k += 1
+    log.append(f"R20:span-erased slice: `.with_span(..)` dropped x{k}")
+    text, k2 = re.subn(r"\.map_err\(\s*\|\s*(\w+)\s*\|\s*\1\s*\)", "", "".join(out))
+    if k2:
+        log.append(f"R20b:`.map_err(|e| e)` left over by the erasure (identity) dropped x{k2}")
+    return text
+
+
 def expand_all(reqs):
     """reqs: [{id, trait, decl}] -> {id: {ok, path|error|panic, log}} ; writes build/gen/<id>.rs"""
     os.makedirs(GEN, exist_ok=True)
@@ -154,6 +180,8 @@ def expand_all(reqs):
             continue
         log = []
         text = prepass(f.stdout, log)
+        if r.get("erase_spans"):
+            text = erase_with_span(text, log)
         path = os.path.join(GEN, r["id"] + ".rs")
         open(path, "w").write(text)
         out[r["id"]] = {"ok": True, "path": path, "log": log}
@@ -606,6 +634,8 @@ def make_unit(unit, d, mode="full", unit_span=False):
     if unit_span:
         hdr = hdr.replace("//@include prelude/base.vrs", "//@include prelude/base_unitspan.vrs")
     body = shape_template(d, unit) if d["kind"] == "shape" else enum_template(d, unit, mode) if d["kind"] == "enum" else (elem_template(d, unit, mode) if d["kind"] == "elem" else struct_template(d, unit, mode))
+    if unit_span:
+        body = body.replace("e_with_span(", "e_nospan(")
     text = hdr + body + FOOTER
     return D.expand_includes(text)
 
@@ -638,7 +668,7 @@ def run_descs(descs, tier="quick", canaries=("head",), mode="full", unit_span=Fa
     from . import driver as D
     import concurrent.futures as cf
     ensure_expander()
-    reqs = [{"id": f"l3_{d['name']}", "trait": d["trait"], "decl": declaration(d)} for d in descs]
+    reqs = [{"id": f"l3_{d['name']}", "trait": d["trait"], "decl": declaration(d), "erase_spans": unit_span} for d in descs]
     ex = expand_all(reqs)
     jobs = []
     results = []
@@ -751,7 +781,7 @@ def units_for(corpus, tier, seed, mode="full", unit_span=False, prefix="l3"):
     ensure_expander()
     descs = CORPORA[corpus](tier, seed)
     tag = {"full": "f", "success": "s", "err": "e"}[mode] + ("u" if unit_span else "")
-    reqs = [{"id": f"{prefix}{tag}_{d['name']}", "trait": d["trait"], "decl": declaration(d)} for d in descs]
+    reqs = [{"id": f"{prefix}{tag}_{d['name']}", "trait": d["trait"], "decl": declaration(d), "erase_spans": unit_span} for d in descs]
     ex = expand_all(reqs)
     out = []
     for d, r in zip(descs, reqs):
@@ -768,6 +798,14 @@ def units_for(corpus, tier, seed, mode="full", unit_span=False, prefix="l3"):
             got = set(re.findall(r"^\s*fn (\w+)\s*[(<]", open(e["path"]).read(), re.M)) - {"__validate_body"}
             if got != exp:
                 meta["interface_mismatch"] = {"expected": sorted(exp), "emitted": sorted(got)}
+        if d["kind"] == "elem" and not meta.get("interface_mismatch"):
+            # emitted structure: a receiver whose declaration makes attributes matter (attributes(..) names, or forward_attrs with an
+            # `attrs` field to keep them) must be given code that walks the element's attributes, and vice versa
+            fwd = d["forward"] if "attrs" in d["magic"] else None
+            walk = bool(d["attributes"]) or (fwd is not None and fwd != [])
+            has = bool(re.search(r"\bfor\s+__attr\s+in\b", open(e["path"]).read()))
+            if walk and not has:
+                meta["interface_mismatch"] = {"expected": ["a walk over the element's attributes (the declaration selects or forwards attributes)"], "emitted": ["no attribute walk"]}
         out.append((uid, make_unit(uid, d, mode, unit_span), meta))
     return out
 
@@ -1162,6 +1200,8 @@ def quick_elems():
         elem_desc("D8", "FromVariant", [f("a")], ["foo"], forward=["doc"], magic=["ident", "discriminant", "fields", "attrs"]),
         elem_desc("D9", "FromTypeParam", [f("a", default="trait")], ["foo", "bar"], forward="all", magic=["ident", "bounds", "default", "attrs"]),
         elem_desc("D6", "FromDeriveInput", [f("z", skip=True)], [], forward=[], magic=["attrs", "ident"]),
+        elem_desc("D10", "FromDeriveInput", [f("z", skip=True)], [], forward="all", magic=["attrs", "ident"]),       # forward-only receivers
+        elem_desc("D11", "FromVariant", [f("a", default="trait")], [], forward=["doc", "ns::keep"], magic=["attrs"]),
         elem_desc("D7", "FromField", [f("q", default="path")], ["ns::deep", "plain"], forward=["ns::doc"], magic=["attrs"]),
         elem_desc("D5", "FromField", [f("keepers", multiple=True)], ["one", "two", "three"], forward=["keep"], magic=["attrs", "vis"], allow_unknown=True),
     ]
@@ -1364,7 +1404,7 @@ def shape_template(d, gen_id):
         w("    pub fn from_meta(__item: &crate::darling::export::syn::Meta) -> (r: crate::darling::Result<Self>)")
         w(f"        ensures r == match T0::meta_spec(*__item) {{ Ok(v) => Ok::<{n}<T0>, Error>({n}(v)), Err(e) => Err::<{n}<T0>, Error>(e_with_span(e, meta_span(*__item))) }},")
         w("    //@body")
-        w("    //@ closure 0: |e: Error| -> (r: Error) ensures r == e_with_span(e, meta_span(*__item))")
+        w("    //@ closure 0 opt: |e: Error| -> (r: Error) ensures r == e_with_span(e, meta_span(*__item))")
         w(f"    //@ replace R4: .map({n}) ==> .map(|__x: T0| -> (r: {n}<T0>) ensures r == {n}(__x) {{ {n}(__x) }})")
         w("    //@end")
         w("}")
